@@ -494,8 +494,16 @@ func checkCmd(args []string) int {
 	for i, pr := range u.Problems {
 		violations++
 		path := filepath.Join(replayDir, fmt.Sprintf("%s-problem-%d.txt", id, i))
-		os.WriteFile(path, []byte("obligation could not be generated or decided on this tree (it is generated and discharged on the unchanged tree):\n"+pr+"\n"), 0o644)
-		fmt.Printf("VIOLATION property=%s replay=%s no-failing-input-found\n  %s\n", id, path, pr)
+		probe, hit := "", false
+		if i < 6 {
+			probe, hit = probeProblem(st, *repo, pr)
+		}
+		os.WriteFile(path, []byte("obligation could not be generated or decided on this tree (it is generated and discharged on the unchanged tree):\n"+pr+"\n\n---- replay on the real code ----\n"+probe), 0o644)
+		if hit {
+			fmt.Printf("VIOLATION property=%s replay=%s\n  %s\n", id, path, pr)
+		} else {
+			fmt.Printf("VIOLATION property=%s replay=%s no-failing-input-found\n  %s\n", id, path, pr)
+		}
 	}
 	raceNote := ""
 	if id == "C16" && *tier == "thorough" {
